@@ -10,6 +10,7 @@ from ..xarray import XArray
 from ..elems import ElemLib, GAUSS, topology
 from ..gausslib import GaussLib, SHAPE_FUNCS, REF_MEASURE, inside, SHAPE_DIM
 from ..geom import Geometry, rule_exact_on
+from ..xeval import Uninterpretable
 from ..repo import dotted, AnalysisError, norm_text as norm_text_
 
 GE = "EasyFEA.FEM._group_elem._GroupElem"
@@ -178,22 +179,34 @@ def run(ctx):
 
     # ---- R7.4 measure / centroid on straight-sided elements
     ge = repo.cls(GE)
+    # which quadrature the measures and the centroid use is OBSERVED: the properties are interpreted on a recorder object
+    # (the matrix types used to be read off the call syntax, which failed on a helper extraction, refactored/C07-R7)
+    from ..xeval import Interp as _I7, XObj as _X7, XRaise as _XR7, Sink as _S7, EnumVal as _E7
+    from ..xarray import XArray as _A7
+
     mt_measure = {}
-    for prop in ("length_e", "area_e", "volume_e"):
+    fi = repo.method(GE, "Integrate_e")
+    for prop, d in (("length_e", 1), ("area_e", 2), ("volume_e", 3)):
         f = repo.method(GE, prop)
-        for n in ast.walk(f.node):
-            if isinstance(n, ast.Call) and (dotted(n.func) or "").endswith("Integrate_e"):
-                a = n.args[1] if len(n.args) > 1 else next((k.value for k in n.keywords if k.arg == "matrixType"), None)
-                if a is None:
-                    # default of Integrate_e
-                    fi = repo.method(GE, "Integrate_e")
-                    a = fi.node.args.defaults[-1]
-                mt_measure[prop] = (dotted(a) or "").split(".")[-1]
+        seen = []
+        I7 = _I7(repo)
+        default_mt = I7.eval_expr(fi.node.args.defaults[-1], {}, fi.file, fi.module)
+        o = _X7(ge, {"dim": d, "Integrate_e": lambda func=None, matrixType=default_mt, _s=seen: (_s.append(matrixType), _A7((1,), [1]))[1]})
+        try:
+            I7.call_function(f, [], self_obj=o)
+        except _XR7:
+            pass
+        if seen:
+            mt_measure[prop] = str(getattr(seen[0], "name", seen[0]))
     fc = repo.method(GE, "center")
-    mt_center = None
-    for n in ast.walk(fc.node):
-        if isinstance(n, ast.Assign) and isinstance(n.value, ast.Attribute) and (dotted(n.value) or "").startswith("MatrixType."):
-            mt_center = n.value.attr
+    seen = []
+    o = _X7(ge, {"dim": 2, "Get_GaussCoordinates_e_pg": lambda mt=None, *a, _s=seen, **k: (_s.append(mt), _A7((1, 1, 3), [1, 1, 1]))[1], "Get_weightedJacobian_e_pg": lambda mt=None, *a, _s=seen, **k: (_s.append(mt), _A7((1, 1), [1]))[1]})
+    try:
+        _I7(repo).call_function(fc, [], self_obj=o)
+    except (_XR7, Uninterpretable):
+        pass
+    kinds = {str(getattr(m, "name", m)) for m in seen}
+    mt_center = kinds.pop() if len(kinds) == 1 else None
     if len(mt_measure) != 3 or mt_center is None:
         raise AnalysisError("R7.4: cannot read the matrix types used by length_e/area_e/volume_e/center")
     prop_of_dim = {1: "length_e", 2: "area_e", 3: "volume_e"}
